@@ -244,6 +244,15 @@ func sanAtoms() []struct {
 		mk("dirname", certgen.GNDirName(certgen.Name(certgen.ATV{OID: certgen.OIDCN, Tag: 12, Val: "dir"}))),
 		mk("othername", certgen.GNOther([]int{1, 3, 6, 1, 4, 1, 311, 20, 2, 3}, der.Str(12, "upn@example.com"))),
 		mk("rid", certgen.GNRID(1, 2, 3, 4)),
+		// id-on-SmtpUTF8Mailbox otherNames: the mailbox of the S/MIME template's subject, another mailbox, and values that
+		// do not decode as a UTF8String mailbox (wrong string type, empty, not a mailbox, no value at all)
+		mk("smtputf8:cn", certgen.GNOther([]int{1, 3, 6, 1, 5, 5, 7, 8, 9}, der.Str(12, "a@example.com"))),
+		mk("smtputf8:other", certgen.GNOther([]int{1, 3, 6, 1, 5, 5, 7, 8, 9}, der.Str(12, "b@example.org"))),
+		mk("smtputf8:ia5", certgen.GNOther([]int{1, 3, 6, 1, 5, 5, 7, 8, 9}, der.Str(22, "a@example.com"))),
+		mk("smtputf8:empty", certgen.GNOther([]int{1, 3, 6, 1, 5, 5, 7, 8, 9}, der.Str(12, ""))),
+		mk("smtputf8:notmailbox", certgen.GNOther([]int{1, 3, 6, 1, 5, 5, 7, 8, 9}, der.Str(12, "not a mailbox"))),
+		mk("smtputf8:novalue", certgen.GNOther([]int{1, 3, 6, 1, 5, 5, 7, 8, 9}, nil)),
+		mk("smtputf8:nonutf8", certgen.GNOther([]int{1, 3, 6, 1, 5, 5, 7, 8, 9}, der.Str(12, "a\xff@example.com"))),
 	}
 }
 
@@ -336,6 +345,21 @@ func checkC17(ctx *core.Ctx, rep *core.Report) {
 	// {harvested, any atom} is then linted in both orders.
 	all := seeds.Load()
 	harvested := c17Harvest(all, tmpls["tls_leaf"], atoms, rep)
+	// … and those that matter only on the S/MIME or the EV template (the lints of those documents answer NA on the TLS one)
+	for _, tn := range []string{"smime_leaf", "ev_leaf"} {
+		have := map[string]bool{}
+		for _, h := range harvested {
+			have[h.name] = true
+		}
+		for _, h := range c17Harvest(all, tmpls[tn], append(append([]struct {
+			name string
+			gn   *der.Node
+		}{}, atoms...), harvested...), nil) {
+			if !have[h.name] {
+				harvested = append(harvested, h)
+			}
+		}
+	}
 	rep.Add("g_harvested_san_atoms", int64(len(harvested)))
 	allAtoms := append(append([]struct {
 		name string
@@ -351,7 +375,7 @@ func checkC17(ctx *core.Ctx, rep *core.Report) {
 				continue
 			}
 			for _, tn := range tnames {
-				if tn != "tls_leaf" && (ctx.Quick() || ai < len(atoms)) {
+				if tn == "ev_leaf" && (ctx.Quick() || ai < len(atoms)) {
 					continue
 				}
 				b := tmpls[tn](certgen.SAN(false, h.gn.Clone(), a.gn.Clone()))
